@@ -1065,6 +1065,13 @@ class BaseDAGExecution(Generic[P, RVDAG]):
                 to_cache_results = results
             pickle.dump(to_cache_results, f, protocol=pickle.HIGHEST_PROTOCOL, fix_imports=False)
 
+    def _resolved_nodes(self, ids: Optional[Sequence[Alias]]) -> Optional[List[ExecNode]]:
+        # the aliases were resolved to ids in __post_init__; DAG.setup resolves aliases again, and there a string
+        #  that is also used as a tag means the tagged nodes: hand over the nodes themselves
+        if ids is None:
+            return None
+        return [self.dag.get_node_by_id(id_) for id_ in ids]  # type: ignore[arg-type]
+
     def _pre_call(self) -> None:
         if self.executed:
             raise TawaziUsageError("DAGExecution object has already been executed.")
@@ -1103,9 +1110,9 @@ class DAGExecution(BaseDAGExecution[P, RVDAG]):
         #  in which case the deps_of might have a setup node themselves which should not run.
         #  This is an edge case though that is not important to handle at the current moment.
         self.dag.setup(
-            target_nodes=self.target_nodes,
-            exclude_nodes=self.exclude_nodes,
-            root_nodes=self.root_nodes,
+            target_nodes=self._resolved_nodes(self.target_nodes),
+            exclude_nodes=self._resolved_nodes(self.exclude_nodes),
+            root_nodes=self._resolved_nodes(self.root_nodes),
         )
 
     def __call__(self, *args: P.args, **kwargs: P.kwargs) -> RVDAG:
@@ -1144,9 +1151,9 @@ class AsyncDAGExecution(BaseDAGExecution[P, RVDAG]):
         #  in which case the deps_of might have a setup node themselves which should not run.
         #  This is an edge case though that is not important to handle at the current moment.
         await self.dag.setup(
-            target_nodes=self.target_nodes,
-            exclude_nodes=self.exclude_nodes,
-            root_nodes=self.root_nodes,
+            target_nodes=self._resolved_nodes(self.target_nodes),
+            exclude_nodes=self._resolved_nodes(self.exclude_nodes),
+            root_nodes=self._resolved_nodes(self.root_nodes),
         )
 
     async def __call__(self, *args: P.args, **kwargs: P.kwargs) -> RVDAG:
